@@ -45,3 +45,18 @@ def lift(position, values=None):
         out.append({"ab": 1, "1": 2})
         return out
     return list(vs)
+
+# extra object/array values aimed at the DSL-built classes of gen/elements.py
+V_OBJ = [
+    {"a": 1, "b": "s"}, {"b": "s"}, {"a": "x", "b": "s"}, {"class": 1, "a b": "x"}, {"a b": "x", "c": [1]}, {"a b": "x", "class_": 9},
+    {"k": 1, "b": 2}, {"k": 1, "b": 2, "d": 4}, {"b": 2}, {"a": 1, "b": "s", "x1": 2}, {"a": 1, "b": "s", "x1": "n"}, {"abcd": 1},
+    {"a": 1, "sx": "v", "at": "long", "zz": 3}, {"a": {"x": [1]}, "q": "notint"}, {"a": 1}, {"a": True},
+    {"inner": {"w": "x"}}, {"inner": {"w": "x", "v": 2}, "inners": [{"w": "y"}, {"w": "z", "v": 0}], "opt": {"w": "q"}}, {"inner": {}},
+    {"left": {"n": 1}, "right": [{"n": 2}, 3, {"n": 1.5}], "extra": {"n": 0}}, {"left": {"n": "x"}},
+    {"k": 0, "a": 1, "b": "s"}, {"k": 0, "a": 1}, {"a": "s", "b": True, "c": None}, {"a": "s", "zq": "w"}, {"a": "s", "other": 1},
+    {"u": "ab", "o": 3, "al": 2, "n": 1, "arr": [1, ["a"]]}, {"o": 0.5}, {"o": 1.5}, {"o": 3, "n": "str"},
+    {"z": 1, "a b": 2}, {"z": 1, "a b": 2, "class": 3}, {"a": 3, "ab": "s"}, {"a": 1, "ab": "s", "q": True}, {"zz": 1},
+    {"a": 1, "b": 2, "c": 3}, {"a": 1, "c": 3}, {"c": 1, "a": 2, "b": 3}, {"d": 1},
+    [1, "a"], [1, "a", 2], [1, "a", "b"], [1], ["a", 1], [[1.5, 2], []], [1, True], [1, True, None], [3, 1], [1, 1],
+    [{"a": 1, "b": "s"}], [{"inner": {"w": "x"}}],
+]
